@@ -83,6 +83,26 @@ def check_run_argument_binding(A, R: Report, rid: str):
             'run() arguments are not bound by their own name from input tasks / declared parameters: ' + '; '.join(sorted(set(problems))), witness=[pretty(t)[:300]], where=where(fra))
 
 
+def check_input_map(A, R: Report, rid: str, K):
+    """TaskParameterConfig.input_tasks = {name: storage key of that input} over ALL Task-valued inputs."""
+    im = K.INPUT_MAP
+    ok_im = False
+    if im[0] == 'mapdict':
+        seq = im[4]
+        filt = im[5]
+        val_ok = any(x[0] in ('dispatch', 'ref', 'rec') and 'get_name_for_persistence' in str(x[1]) for x in dag_nodes(im[3])) or \
+            any(x[0] == 'method' and x[2] == 'get_name_for_persistence' for x in dag_nodes(im[3])) or \
+            any(x[0] == 'attr' and x[2] == 'name_for_persistence' for x in dag_nodes(im[3]))
+        in_param = [p for p in K.f_tpc_init.params if 'input' in p]
+        seq_ok = bool(in_param) and seq == ('items', ('p', in_param[0]))
+        filt_ok = filt is None or (filt[0] == 'isinst' and filt[2] == ('global', 'Task'))
+        key_ok = im[2] == im[1][0]
+        ok_im = val_ok and seq_ok and filt_ok and key_ok
+    R.check(ok_im, rid, 'TaskParameterConfig.__init__: input_tasks', key_of('input-map', pretty(im)[:100] if not ok_im else 'ok'), 'name -> the input\'s own storage key, for every Task input',
+            'self.input_tasks is not {name: storage key of that input} over all inputs: the hash chain over the DAG is broken (tasks downstream of an omitted input share one key / one object across different upstream configurations)',
+            witness=[pretty(im)[:300]], where=where(K.f_tpc_init))
+
+
 def input_name_problems(digest_arg):
     """Problems with `name=key` of the inputs inside the hashed text; None when the binding is not recognised.
     The name must be the input's declared name with exactly the own namespace prefix (`<ns>::`) removed - nothing
@@ -192,21 +212,7 @@ def run(A, R: Report, thorough: bool):
         if seq[0] == 'values' and seq[1] == ('attr', ('self',), '_parameters') and guard_ok and body_ok:
             full = True
     R.check(full, 'R01.2', 'ParameterRegistry.repr', key_of('all-parameters', full), 'maps over all registered parameters', 'the registry repr does not cover every registered parameter (slice / filter on names)', witness=[pretty(reg_t)[:200]], where=where(K.f_registry))
-    im = K.INPUT_MAP
-    ok_im = False
-    if im[0] == 'mapdict':
-        seq = im[4]
-        filt = im[5]
-        val_ok = any(x[0] in ('dispatch', 'ref', 'rec') and 'get_name_for_persistence' in str(x[1]) for x in dag_nodes(im[3])) or \
-            any(x[0] == 'method' and x[2] == 'get_name_for_persistence' for x in dag_nodes(im[3])) or \
-            any(x[0] == 'attr' and x[2] == 'name_for_persistence' for x in dag_nodes(im[3]))
-        in_param = [p for p in K.f_tpc_init.params if 'input' in p]
-        seq_ok = bool(in_param) and seq == ('items', ('p', in_param[0]))
-        filt_ok = filt is None or (filt[0] == 'isinst' and filt[2] == ('global', 'Task'))
-        key_ok = im[2] == im[1][0]
-        ok_im = val_ok and seq_ok and filt_ok and key_ok
-    R.check(ok_im, 'R01.2', 'TaskParameterConfig.__init__: input_tasks', key_of('input-map', pretty(im)[:100] if not ok_im else 'ok'), 'name -> the input\'s own storage key, for every Task input',
-            'self.input_tasks is not {name: storage key of that input} over all inputs: the hash chain over the DAG is broken', witness=[pretty(im)[:300]], where=where(K.f_tpc_init))
+    check_input_map(A, R, 'R01.2', K)
     frec = A.func('Chain._recreate_tasks_with_parameter_config')
     ctor_calls = [(f, n) for f in [frec] + list(frec.nested.values()) for n in A.typer.own_nodes(f) if isinstance(n, ast.Call) and src(n.func) == 'TaskParameterConfig']
     R.require(ctor_calls, 'anchor: TaskParameterConfig(...) construction not found in _recreate_tasks_with_parameter_config')
